@@ -340,14 +340,16 @@ pub fn promote<ID: Eq + Hash, C: Conditions>(
     access: Access<C>,
 ) -> Result<GroupMembersState<ID, C>, GroupMembershipError<ID>> {
     if let Some(member) = state.members.get(&promoted) {
-        // No action is required if the member is already set to the highest access level.
-        let new_state = if member.is_manager() {
-            state
+        // No modification is required if the member is already set to the highest access level;
+        // the rights of the promoter and the membership of the promoted member are checked
+        // nevertheless (re-assigning the current access is a no-op in `modify`).
+        let access = if member.is_manager() {
+            member.access()
         } else {
-            modify(state, promoter, promoted, access)?
+            access
         };
 
-        Ok(new_state)
+        modify(state, promoter, promoted, access)
     } else {
         Err(GroupMembershipError::UnrecognisedMember(promoted))
     }
@@ -368,14 +370,16 @@ pub fn demote<ID: Eq + Hash, C: Conditions>(
     access: Access<C>,
 ) -> Result<GroupMembersState<ID, C>, GroupMembershipError<ID>> {
     if let Some(member) = state.members.get(&demoted) {
-        // No action is required if the member is already set to the lowest access level.
-        let new_state = if member.is_puller() {
-            state
+        // No modification is required if the member is already set to the lowest access level;
+        // the rights of the demoter and the membership of the demoted member are checked
+        // nevertheless (re-assigning the current access is a no-op in `modify`).
+        let access = if member.is_puller() {
+            member.access()
         } else {
-            modify(state, demoter, demoted, access)?
+            access
         };
 
-        Ok(new_state)
+        modify(state, demoter, demoted, access)
     } else {
         Err(GroupMembershipError::UnrecognisedMember(demoted))
     }
